@@ -12,6 +12,9 @@
 import Bcder.Props.C09
 import Bcder.Props.C06
 import Bcder.Props.C14
+import Bcder.Props.C15
+import Bcder.Props.C19
+import Bcder.Props.C20
 namespace Bcder.Props.C04
 open Bcder Bcder.Spec Prog Bcder.Props.C02 Bcder.Props.C09
 
@@ -305,6 +308,37 @@ theorem rt_prim (m : Mode) (cls num : Nat) (hc : cls ≤ 3) (hn : num ≤ 0x1fff
       (fun c => takePrimitiveIf c (C12.tagOf cls num) (fun md => do let a ← p; pure (a, md))) v :=
   rt_mandatory m _ _ v (rt_prim_opt m cls num hc hn hne p cnt v hlen hp)
 
+/-- a content closure that decodes the primitive content `cnt` to `v` and leaves it exhausted -/
+def ContentDecodes (m : Mode) (op : Content → Prog (α × Content)) (cnt : Bytes) (v : α) : Prop :=
+  ∀ tail, ∃ g', runG0 (op (.prim m)) (St (cnt ++ tail) (some cnt.length)) = .ok ((v, .prim m), g') ∧
+    runG0 limitedExhausted g' = .ok ((), St tail (some 0))
+
+/-- the same framing for readers that take the `Content` (`take_value_if`, `take_opt_value_if`) -/
+theorem rt_value_opt (m : Mode) (cls num : Nat) (hc : cls ≤ 3) (hn : num ≤ 0x1fffff) (hne : ¬ (cls = 0 ∧ num = 0))
+    (op : Content → Prog (α × Content)) (cnt : Bytes) (v : α) (hlen : cnt.length < 2 ^ 32)
+    (hp : ContentDecodes m op cnt v) :
+    RT m (hdrOctets cls false num cnt.length ++ cnt)
+      (fun c => takeOptValueIf c (C12.tagOf cls num) op) (some v) := by
+  intro c tail lim hm hnd hdef hcov
+  unfold takeOptValueIf
+  have hcov' : ∀ l, lim = some l → (hdrOctets cls false num cnt.length).length + cnt.length ≤ l := by
+    intro l hl; have := hcov l hl; simpa using this
+  have hf := frame_definite c cls num false hc hn hne (fun _ => op) cnt tail hlen lim hnd hdef hcov'
+  rw [hf]
+  unfold frameResult
+  simp only [Bool.false_and, Bool.false_eq_true, if_false]
+  obtain ⟨g', h1, h2⟩ := hp tail
+  rw [hm, h1]
+  simp only [Content.exhausted, h2]
+  simp [List.length_append, Nat.add_comm]
+
+theorem rt_value (m : Mode) (cls num : Nat) (hc : cls ≤ 3) (hn : num ≤ 0x1fffff) (hne : ¬ (cls = 0 ∧ num = 0))
+    (op : Content → Prog (α × Content)) (cnt : Bytes) (v : α) (hlen : cnt.length < 2 ^ 32)
+    (hp : ContentDecodes m op cnt v) :
+    RT m (hdrOctets cls false num cnt.length ++ cnt)
+      (fun c => takeValueIf c (C12.tagOf cls num) op) v :=
+  rt_mandatory m _ _ v (rt_value_opt m cls num hc hn hne op cnt v hlen hp)
+
 /-- nothing to read -/
 theorem rt_nil (m : Mode) : RT m [] (fun c => (pure ((), c) : Prog (Unit × Cons))) () := by
   intro c tail lim _ _ _ _
@@ -368,5 +402,455 @@ theorem rt_cons (m : Mode) (hm : m ≠ .cer) (cls num : Nat) (hc : cls ≤ 3) (h
     RT m (hdrOctets cls true num ib.length ++ ib)
       (fun c => takeConstructedIf c (C12.tagOf cls num) dec) v :=
   rt_mandatory m _ _ v (rt_cons_opt m hm cls num hc hn hne ib dec v hlen hin)
+
+
+/-! ### CER: indefinite length closed by end-of-contents -/
+
+/-- the exhaustion check of an indefinite `Constructed` consumes exactly the end-of-contents octets -/
+theorem eoc_exhausted (m : Mode) (tail : Bytes) (lim : Option Nat) (hcov : ∀ l, lim = some l → 2 ≤ l) :
+    runG0 (Cons.exhausted ⟨.indefinite, m⟩) (St (0 :: 0 :: tail) lim) = .ok ((), St tail (lim.map (· - 2))) := by
+  let g : G0 := St (0 :: 0 :: tail) lim
+  have hv : ∃ t', g.view = 0 :: 0 :: t' := by
+    cases hl : lim with
+    | none => exact ⟨tail, by simp [g, G0.view, hl]⟩
+    | some l =>
+      have := hcov l hl
+      refine ⟨tail.take (l - 2), ?_⟩
+      simp only [g, G0.view, hl]
+      obtain ⟨l', rfl⟩ : ∃ l', l = l' + 2 := ⟨l - 2, by omega⟩
+      simp
+  obtain ⟨t', hv⟩ := hv
+  have hri : readIdent g.view = some (⟨0, false, 0⟩, 1) := by rw [hv]; rfl
+  have hv1 : (g.adv 1).view = 0 :: t' := by
+    rw [G0.adv_view g 1 (by rw [hv]; simp), hv]; rfl
+  have hrl : readLen m.isBer (g.adv 1).view = some (some 0, 1) := by rw [hv1]; rfl
+  simp only [Cons.exhausted, runG0_bind]
+  rw [tag_takeFrom0 g rfl, hri]
+  simp only
+  have e0 : C12.tagOf 0 0 = Tag.END_OF_VALUE := by rfl
+  rw [e0]
+  simp only [bne_self_eq_false, Bool.false_or, Bool.false_eq_true, if_false, runG0_bind]
+  rw [length_takeFrom0 m (g.adv 1) rfl, hrl]
+  simp only [Length.isZero, if_true, runG0_pure]
+  rw [G0.adv_adv]
+  simp only [g, G0.adv, List.drop_succ_cons, List.drop_zero]
+
+/-- **Constructed values in CER (indefinite length) round-trip** if their content does -/
+theorem rt_cons_cer_opt (cls num : Nat) (hc : cls ≤ 3) (hn : num ≤ 0x1fffff)
+    (hne : ¬ (cls = 0 ∧ num = 0)) (ib : Bytes) (dec : Cons → Prog (β × Cons)) (v : β)
+    (hin : RT .cer ib dec v) :
+    RT .cer (identOctets cls true num ++ [0x80] ++ ib ++ [0, 0])
+      (fun c => takeOptConstructedIf c (C12.tagOf cls num) dec) (some v) := by
+  intro c tail lim hmode hnd hdef hcov
+  unfold takeOptConstructedIf
+  let data : Bytes := identOctets cls true num ++ [0x80] ++ ib ++ [0, 0] ++ tail
+  let g : G0 := St data lim
+  have hidl : 1 ≤ (identOctets cls true num).length := by
+    unfold identOctets; by_cases h : num ≤ 30 <;> simp [h]
+  have hcovl : ∀ l, lim = some l → (identOctets cls true num).length + 1 + ib.length + 2 ≤ l := by
+    intro l hl; have := hcov l hl; simp at this; omega
+  have hview : ∃ t', g.view = identOctets cls true num ++ (0x80 :: (ib ++ 0 :: 0 :: t')) := by
+    cases hl : lim with
+    | none => exact ⟨tail, by simp [g, data, G0.view, hl, List.append_assoc]⟩
+    | some l =>
+      have := hcovl l hl
+      refine ⟨tail.take (l - ((identOctets cls true num).length + 1 + ib.length + 2)), ?_⟩
+      simp only [g, data, G0.view, hl]
+      rw [take_covers _ _ _ (by simp; omega)]
+      simp [List.append_assoc, Nat.add_assoc]
+      congr 2; omega
+  obtain ⟨t', hv⟩ := hview
+  have hri : readIdent g.view = some (⟨cls, true, num⟩, (identOctets cls true num).length) := by
+    rw [hv]; exact readIdent_identOctets cls num true hc hn _
+  have hk : (identOctets cls true num).length ≤ g.view.length := by rw [hv]; simp
+  have hv1 : (g.adv (identOctets cls true num).length).view = 0x80 :: (ib ++ 0 :: 0 :: t') := by
+    rw [G0.adv_view g _ hk, hv]; simp
+  have hrl : readLen c.mode.isBer (g.adv (identOctets cls true num).length).view = some (none, 1) := by
+    rw [hv1]; rfl
+  have hpres := present_if c cls num hc hn (fun _ => asConstructed dec) g rfl hnd
+    (by intro l hs hl h0; have := hcovl l hl; omega)
+    (by intro ⟨hs, hl⟩; exact hdef hs hl)
+    true _ hri
+  show runG0 (processNextValue c (some (C12.tagOf cls num)) fun _ => asConstructed dec) g = _
+  rw [hpres, hrl]
+  simp only
+  have hg2 : (g.adv (identOctets cls true num).length).adv 1 =
+      St (ib ++ (0 :: 0 :: tail)) (lim.map (· - ((identOctets cls true num).length + 1))) := by
+    rw [G0.adv_adv]
+    simp only [g, data, G0.adv]
+    congr 1
+    rw [List.append_assoc, List.append_assoc, List.append_assoc]
+    rw [show (identOctets cls true num).length + 1 = (identOctets cls true num ++ [0x80]).length by simp]
+    rw [← List.append_assoc (identOctets cls true num)]
+    rw [List.drop_append_of_le_length (Nat.le_refl _)]
+    simp
+  rw [hg2]
+  unfold bodyF
+  have heoc : isEocIdent ⟨cls, true, num⟩ = false := by
+    simp only [isEocIdent, Bool.and_eq_false_iff, beq_eq_false_iff_ne, ne_eq]
+    by_cases h0 : cls = 0
+    · right; intro h1; exact hne ⟨h0, h1⟩
+    · left; exact h0
+  have hder : (!true || c.mode == .der) = false := by rw [hmode]; rfl
+  simp only [heoc, Bool.false_eq_true, if_false, hder]
+  have hi := hin ⟨.indefinite, c.mode⟩ (0 :: 0 :: tail)
+    (lim.map (· - ((identOctets cls true num).length + 1))) hmode (by simp) (by simp)
+    (by
+      intro l hl
+      cases hl0 : lim with
+      | none => rw [hl0] at hl; simp at hl
+      | some l0 => rw [hl0] at hl; simp at hl; have := hcovl l0 hl0; omega)
+  simp only [asConstructed, runG0_bind, hi, runG0_pure, Content.exhausted]
+  rw [hmode]
+  rw [eoc_exhausted .cer tail _ (by
+      intro l hl
+      cases hl0 : lim with
+      | none => rw [hl0] at hl; simp at hl
+      | some l0 => rw [hl0] at hl; simp at hl; have := hcovl l0 hl0; omega)]
+  simp only
+  cases lim with
+  | none => simp
+  | some l => simp [Nat.sub_sub, Nat.add_assoc]; omega
+
+theorem rt_cons_cer (cls num : Nat) (hc : cls ≤ 3) (hn : num ≤ 0x1fffff)
+    (hne : ¬ (cls = 0 ∧ num = 0)) (ib : Bytes) (dec : Cons → Prog (β × Cons)) (v : β)
+    (hin : RT .cer ib dec v) :
+    RT .cer (identOctets cls true num ++ [0x80] ++ ib ++ [0, 0])
+      (fun c => takeConstructedIf c (C12.tagOf cls num) dec) v :=
+  rt_mandatory .cer _ _ v (rt_cons_cer_opt cls num hc hn hne ib dec v hin)
+
+
+/-! ### from encoders to octets -/
+
+theorem tagOf_write (cls num : Nat) (hc : cls ≤ 3) (hn : num ≤ 0x1fffff) (c : Bool) :
+    (C12.tagOf cls num).write c = identOctets cls c num := by
+  obtain ⟨t, ht, hw, _⟩ := C12.write_eq_spec cls num c hc hn
+  have : C12.tagOf cls num = t := by simp [C12.tagOf, ht]
+  rw [this, hw]
+
+/-- a valid, non-end-of-contents tag -/
+structure TagOK (cls num : Nat) : Prop where
+  hc : cls ≤ 3
+  hn : num ≤ 0x1fffff
+  hne : ¬ (cls = 0 ∧ num = 0)
+
+theorem write_prim_bytes (m : Mode) (cls num : Nat) (ht : TagOK cls num) (pc : PC) (hi : C06.PC.intOK pc = true)
+    (bytes : Bytes) (h : (Enc.prim (C12.tagOf cls num) pc).write m = .ok bytes) :
+    pc.write.length < 2 ^ 32 ∧ bytes = hdrOctets cls false num pc.write.length ++ pc.write := by
+  rw [C06.write_prim m _ pc hi, C06.tlvR] at h
+  by_cases hl : pc.write.length < 2 ^ 32
+  · rw [if_pos hl, tagOf_write cls num ht.hc ht.hn] at h
+    cases h
+    exact ⟨hl, by simp [hdrOctets]⟩
+  · rw [if_neg hl] at h; cases h
+
+theorem write_cons_bytes (m : Mode) (cls num : Nat) (ht : TagOK cls num) (inner : Enc)
+    (hi : C06.IntsOK inner = true) (bytes : Bytes)
+    (h : (Enc.cons (C12.tagOf cls num) inner).write m = .ok bytes) :
+    ∃ ib, inner.write m = .ok ib ∧
+      ((m ≠ .cer ∧ ib.length < 2 ^ 32 ∧ bytes = hdrOctets cls true num ib.length ++ ib) ∨
+       (m = .cer ∧ bytes = identOctets cls true num ++ [0x80] ++ ib ++ [0, 0])) := by
+  have hdef : ∀ (md : Mode), md ≠ .cer →
+      (Enc.cons (C12.tagOf cls num) inner).write md = inner.write md >>= C06.tlvR (C12.tagOf cls num) true →
+      (Enc.cons (C12.tagOf cls num) inner).write md = .ok bytes →
+      ∃ ib, inner.write md = .ok ib ∧ md ≠ .cer ∧ ib.length < 2 ^ 32 ∧
+        bytes = hdrOctets cls true num ib.length ++ ib := by
+    intro md hmd hw h
+    rw [hw] at h
+    cases hiw : inner.write md with
+    | error e => rw [hiw] at h; cases h
+    | ok ib =>
+      rw [hiw] at h
+      simp only [Bind.bind, Except.bind, C06.tlvR] at h
+      by_cases hl : ib.length < 2 ^ 32
+      · rw [if_pos hl, tagOf_write cls num ht.hc ht.hn] at h
+        cases h
+        exact ⟨ib, rfl, hmd, hl, by simp [hdrOctets]⟩
+      · rw [if_neg hl] at h; cases h
+  cases m with
+  | ber =>
+    obtain ⟨ib, h1, h2, h3, h4⟩ := hdef .ber (by decide) (C06.write_cons_ber _ inner hi) h
+    exact ⟨ib, h1, .inl ⟨h2, h3, h4⟩⟩
+  | der =>
+    obtain ⟨ib, h1, h2, h3, h4⟩ := hdef .der (by decide) (C06.write_cons_der _ inner hi) h
+    exact ⟨ib, h1, .inl ⟨h2, h3, h4⟩⟩
+  | cer =>
+    rw [C06.write_cons_cer] at h
+    cases hiw : inner.write .cer with
+    | error e => rw [hiw] at h; cases h
+    | ok ib =>
+      rw [hiw] at h
+      simp only [Bind.bind, Except.bind, Pure.pure, Except.pure] at h
+      cases h
+      exact ⟨ib, rfl, .inr ⟨rfl, by rw [tagOf_write cls num ht.hc ht.hn]⟩⟩
+
+/-! ### the codec algebra: every composition of round-tripping parts round-trips -/
+
+/-- pairs of an encoder composition and a decoder built from the crate's reading combinators -/
+inductive Codec (m : Mode) : {β : Type} → Enc → (Cons → Prog (β × Cons)) → β → Prop
+  /-- `value.encode_as(tag)` / `take_primitive_if(tag, |prim| …)` -/
+  | prim {α : Type} (cls num : Nat) (ht : TagOK cls num) (pc : PC) (hi : C06.PC.intOK pc = true) (p : Prog α) (v : α)
+      (hp : PrimDecodes p pc.write v) :
+      Codec m (.prim (C12.tagOf cls num) pc)
+        (fun c => takePrimitiveIf c (C12.tagOf cls num) (fun md => do let a ← p; pure (a, md))) v
+  /-- the same read through `take_opt_primitive_if` (an OPTIONAL field that is present) -/
+  | optPrim {α : Type} (cls num : Nat) (ht : TagOK cls num) (pc : PC) (hi : C06.PC.intOK pc = true) (p : Prog α) (v : α)
+      (hp : PrimDecodes p pc.write v) :
+      Codec m (.optSome (.prim (C12.tagOf cls num) pc))
+        (fun c => takeOptPrimitiveIf c (C12.tagOf cls num) (fun md => do let a ← p; pure (a, md))) (some v)
+  /-- primitive values whose decoder takes the `Content` (`BitString::from_content`, `OctetString::from_content`, …) -/
+  | value {α : Type} (cls num : Nat) (ht : TagOK cls num) (pc : PC) (hi : C06.PC.intOK pc = true)
+      (op : Content → Prog (α × Content)) (v : α) (hp : ContentDecodes m op pc.write v) :
+      Codec m (.prim (C12.tagOf cls num) pc) (fun c => takeValueIf c (C12.tagOf cls num) op) v
+  | optValue {α : Type} (cls num : Nat) (ht : TagOK cls num) (pc : PC) (hi : C06.PC.intOK pc = true)
+      (op : Content → Prog (α × Content)) (v : α) (hp : ContentDecodes m op pc.write v) :
+      Codec m (.optSome (.prim (C12.tagOf cls num) pc)) (fun c => takeOptValueIf c (C12.tagOf cls num) op) (some v)
+  /-- `sequence`, `set`, `explicit`, `Constructed::new(tag, inner)` / `take_constructed_if` -/
+  | cons {β : Type} (cls num : Nat) (ht : TagOK cls num) (inner : Enc) (hi : C06.IntsOK inner = true)
+      (dec : Cons → Prog (β × Cons)) (v : β) (hin : Codec m inner dec v) :
+      Codec m (.cons (C12.tagOf cls num) inner) (fun c => takeConstructedIf c (C12.tagOf cls num) dec) v
+  /-- an OPTIONAL constructed field that is present -/
+  | optCons {β : Type} (cls num : Nat) (ht : TagOK cls num) (inner : Enc) (hi : C06.IntsOK inner = true)
+      (dec : Cons → Prog (β × Cons)) (v : β) (hin : Codec m inner dec v) :
+      Codec m (.optSome (.cons (C12.tagOf cls num) inner))
+        (fun c => takeOptConstructedIf c (C12.tagOf cls num) dec) (some v)
+  /-- the empty tuple / empty `Vec` / `Nothing` -/
+  | seqNil (k : SeqKind) : Codec m (.seq k []) (fun c => (pure ((), c) : Prog (Unit × Cons))) ()
+  /-- tuples, `Vec`, slices, iterators: items in order -/
+  | seqCons {β γ : Type} (k : SeqKind) (e : Enc) (es : List Enc) (d1 : Cons → Prog (β × Cons))
+      (d2 : Cons → Prog (γ × Cons)) (v1 : β) (v2 : γ)
+      (h1 : Codec m e d1 v1) (h2 : Codec m (.seq k es) d2 v2) :
+      Codec m (.seq k (e :: es)) (fun c => do let (a, c1) ← d1 c; let (b, c2) ← d2 c1; pure ((a, b), c2)) (v1, v2)
+  /-- `Choice2` / `Choice3`: the chosen alternative -/
+  | choice {β : Type} (n i : Nat) (e : Enc) (d : Cons → Prog (β × Cons)) (v : β) (h : Codec m e d v) :
+      Codec m (.choice n i e) d v
+  /-- post-processing of the decoded value -/
+  | map {β γ : Type} (e : Enc) (d : Cons → Prog (β × Cons)) (v : β) (f : β → γ) (h : Codec m e d v) :
+      Codec m e (fun c => do let (a, c1) ← d c; pure (f a, c1)) (f v)
+
+/-- **C04: encode, then decode, for every composition.** -/
+theorem codec_roundtrip (m : Mode) {β : Type} (e : Enc) (dec : Cons → Prog (β × Cons)) (v : β)
+    (h : Codec m e dec v) : ∀ bytes, e.write m = .ok bytes → RT m bytes dec v := by
+  induction h with
+  | prim cls num ht pc hi p v hp =>
+    intro bytes hw
+    obtain ⟨hl, hb⟩ := write_prim_bytes m cls num ht pc hi bytes hw
+    rw [hb]
+    exact rt_prim m cls num ht.hc ht.hn ht.hne p pc.write v hl hp
+  | optPrim cls num ht pc hi p v hp =>
+    intro bytes hw
+    simp only [Enc.write] at hw
+    obtain ⟨hl, hb⟩ := write_prim_bytes m cls num ht pc hi bytes (by simpa only [Enc.write] using hw)
+    rw [hb]
+    exact rt_prim_opt m cls num ht.hc ht.hn ht.hne p pc.write v hl hp
+  | value cls num ht pc hi op v hp =>
+    intro bytes hw
+    obtain ⟨hl, hb⟩ := write_prim_bytes m cls num ht pc hi bytes hw
+    rw [hb]
+    exact rt_value m cls num ht.hc ht.hn ht.hne op pc.write v hl hp
+  | optValue cls num ht pc hi op v hp =>
+    intro bytes hw
+    obtain ⟨hl, hb⟩ := write_prim_bytes m cls num ht pc hi bytes (by simpa only [Enc.write] using hw)
+    rw [hb]
+    exact rt_value_opt m cls num ht.hc ht.hn ht.hne op pc.write v hl hp
+  | cons cls num ht inner hi dec v hin ih =>
+    intro bytes hw
+    obtain ⟨ib, hiw, h | h⟩ := write_cons_bytes m cls num ht inner hi bytes hw
+    · obtain ⟨hm, hl, hb⟩ := h
+      rw [hb]
+      exact rt_cons m hm cls num ht.hc ht.hn ht.hne ib dec v hl (ih ib hiw)
+    · obtain ⟨hm, hb⟩ := h
+      subst hm
+      rw [hb]
+      exact rt_cons_cer cls num ht.hc ht.hn ht.hne ib dec v (ih ib hiw)
+  | optCons cls num ht inner hi dec v hin ih =>
+    intro bytes hw
+    obtain ⟨ib, hiw, h | h⟩ := write_cons_bytes m cls num ht inner hi bytes (by simpa only [Enc.write] using hw)
+    · obtain ⟨hm, hl, hb⟩ := h
+      rw [hb]
+      exact rt_cons_opt m hm cls num ht.hc ht.hn ht.hne ib dec v hl (ih ib hiw)
+    · obtain ⟨hm, hb⟩ := h
+      subst hm
+      rw [hb]
+      exact rt_cons_cer_opt cls num ht.hc ht.hn ht.hne ib dec v (ih ib hiw)
+  | seqNil k =>
+    intro bytes hw
+    simp only [Enc.write, Enc.writeList] at hw
+    cases hw
+    exact rt_nil m
+  | seqCons k e es d1 d2 v1 v2 h1 h2 ih1 ih2 =>
+    intro bytes hw
+    simp only [Enc.write, Enc.writeList] at hw
+    cases hw1 : e.write m with
+    | error err => rw [hw1] at hw; cases hw
+    | ok b1 =>
+      rw [hw1] at hw
+      cases hw2 : Enc.writeList m es with
+      | error err => rw [hw2] at hw; cases hw
+      | ok b2 =>
+        rw [hw2] at hw
+        simp only [Bind.bind, Except.bind, Pure.pure, Except.pure] at hw
+        cases hw
+        exact rt_seq m b1 b2 d1 d2 v1 v2 (ih1 b1 hw1) (ih2 b2 (by simpa only [Enc.write] using hw2))
+  | choice n i e d v h ih =>
+    intro bytes hw
+    simp only [Enc.write] at hw
+    exact ih bytes hw
+  | map e d v f h ih =>
+    intro bytes hw
+    exact rt_map m bytes d v f (ih bytes hw)
+
+
+/-! ### leaves: every supported primitive type -/
+
+/-- fixed-width INTEGER (all ten builtin types) -/
+theorem leaf_int (ty : IntTy) (v : Int) (h : inRange ty.signed ty.width v = true) :
+    PrimDecodes (toInt ty) (PC.int ty v).write v := fun tail => C14.roundtrip ty v h tail
+/-- BOOLEAN -/
+theorem leaf_bool (m : Mode) (b : Bool) : PrimDecodes (toBool m) (PC.bool b).write b :=
+  fun tail => C14.bool_roundtrip m b tail
+/-- NULL -/
+theorem leaf_null : PrimDecodes toNull PC.null.write () := fun tail => C14.null_roundtrip tail
+
+theorem primDecodes_of_run (p : Prog α) (cnt : Bytes) (v : α)
+    (h : ∀ tail, runG0 p (St (cnt ++ tail) (some cnt.length)) = .ok (v, St tail (some 0))) :
+    PrimDecodes p cnt v := by
+  intro tail
+  rw [primRun_unfold, h tail]
+  simp [run_limitedExhausted]
+
+/-- OBJECT IDENTIFIER (content = what the encoder writes for an accepted identifier) -/
+theorem leaf_oid (c : Bytes) (h : Oid.checkContent c = true) : PrimDecodes Oid.fromPrimitive (PC.oid c).write c := by
+  apply primDecodes_of_run
+  intro tail
+  have := C20.fromPrimitive_run c tail
+  simpa [h, PC.write] using this
+
+/-- arbitrary-size INTEGER (`Integer`; content in minimal form) -/
+theorem leaf_integer (c : Bytes) (h : isMinimalTC c = true) :
+    PrimDecodes integerFromPrimitive (PC.integer c).write c := by
+  apply primDecodes_of_run
+  intro tail
+  have := C15.integerFromPrimitive_spec c tail
+  simpa [h, PC.write] using this
+
+/-- BIT STRING -/
+theorem leaf_bits (m : Mode) (s : BitString) (h : C19.accepts m s.enc = true) :
+    ContentDecodes m BitString.fromContent (PC.bits s.unused s.bits).write s := by
+  intro tail
+  refine ⟨St tail (some 0), ?_, by simp [run_limitedExhausted]⟩
+  have h1 := C19.fromContent_run m s.enc tail
+  simp only [C19.enc_eq] at h h1
+  simp only [C19.decoded, h, if_true] at h1
+  exact h1
+
+/-- OCTET STRING, primitive form (BER and DER: any content below 2^32 octets; CER: at most 1000 octets) -/
+theorem leaf_octets (m : Mode) (fuel : Nat) (bs : Bytes) (h : m = .cer → bs.length ≤ 1000) :
+    ContentDecodes m (OS.fromContent fuel) (PC.octets bs).write (.prim bs) := by
+  intro tail
+  refine ⟨St tail (some 0), ?_, by simp [run_limitedExhausted]⟩
+  simp only [PC.write, OS.fromContent]
+  have hgt : (m == Mode.cer && decide (bs.length > 1000)) = false := by
+    cases m <;> simp
+    have := h rfl; omega
+  simp only [runG0_bind, runG0_ite, C19.run_remaining, run_takeAll]
+  by_cases hc : m = .cer
+  · subst hc
+    have := h rfl
+    have h2 : ¬ bs.length > 1000 := by omega
+    simp [h2]
+  · have : (m == Mode.cer) = false := by cases m <;> simp at hc ⊢
+    simp [this]
+
+/-! ### consequences -/
+
+/-- DER output is also accepted, with the same value, by the BER-mode decoder built from the same
+    combinators (for compositions of primitives, constructed values, sequences, options, choices) -/
+theorem write_der_eq_ber {β : Type} (e : Enc) (dec : Cons → Prog (β × Cons)) (v : β) (h : Codec .ber e dec v) :
+    e.write .der = e.write .ber := by
+  induction h with
+  | prim cls num ht pc hi p v hp => rw [C06.write_prim _ _ pc hi, C06.write_prim _ _ pc hi]
+  | optPrim cls num ht pc hi p v hp =>
+    simp only [Enc.write]
+  | value cls num ht pc hi op v hp => rw [C06.write_prim _ _ pc hi, C06.write_prim _ _ pc hi]
+  | optValue cls num ht pc hi op v hp => simp only [Enc.write]
+  | cons cls num ht inner hi dec v hin ih => rw [C06.write_cons_ber _ inner hi, C06.write_cons_der _ inner hi, ih]
+  | optCons cls num ht inner hi dec v hin ih =>
+    have := C06.write_cons_ber (C12.tagOf cls num) inner hi
+    have h2 := C06.write_cons_der (C12.tagOf cls num) inner hi
+    simp only [Enc.write] at this h2 ⊢
+    rw [this, h2, ih]
+  | seqNil k => rfl
+  | seqCons k e es d1 d2 v1 v2 h1 h2 ih1 ih2 =>
+    simp only [Enc.write, Enc.writeList] at ih2 ⊢
+    rw [ih1, ih2]
+  | choice n i e d v h ih => simp only [Enc.write]; exact ih
+  | map e d v f h ih => exact ih
+
+theorem der_decodes_in_ber {β : Type} (e : Enc) (dec : Cons → Prog (β × Cons)) (v : β) (h : Codec .ber e dec v)
+    (bytes : Bytes) (hw : e.write .der = .ok bytes) : RT .ber bytes dec v :=
+  codec_roundtrip .ber e dec v h bytes (by rw [← write_der_eq_ber e dec v h]; exact hw)
+
+/-- **C04 at top level**: `Mode::decode(bytes, dec)` on exactly the written octets returns the value
+    and leaves nothing -/
+theorem top_roundtrip (m : Mode) {β : Type} (e : Enc) (dec : Cons → Prog (β × Cons)) (v : β)
+    (h : Codec m e dec v) (bytes : Bytes) (hw : e.write m = .ok bytes) :
+    runG0 (decodeTop m dec) (St bytes none) = .ok (v, St [] none) := by
+  have := codec_roundtrip m e dec v h bytes hw ⟨.unbounded, m⟩ [] none rfl (by simp) (by simp) (by simp)
+  simp only [List.append_nil] at this
+  simp [decodeTop, runG0_bind, this, Cons.exhausted]
+
+/-! non-vacuity: SEQUENCE { INTEGER 300 (i16), BOOLEAN true, [0] EXPLICIT NULL OPTIONAL present } -/
+def sample : Enc :=
+  .cons (C12.tagOf 0 16) (.seq .tuple [
+    .prim (C12.tagOf 0 2) (.int .i16 300),
+    .prim (C12.tagOf 0 1) (.bool true),
+    .optSome (.cons (C12.tagOf 2 0) (.seq .tuple [.prim (C12.tagOf 0 5) .null]))])
+
+example : sample.write .der = .ok [0x30, 0x0b, 0x02, 0x02, 0x01, 0x2c, 0x01, 0x01, 0xff, 0xa0, 0x02, 0x05, 0x00] := by
+  rfl
+example : sample.write .cer =
+    .ok [0x30, 0x80, 0x02, 0x02, 0x01, 0x2c, 0x01, 0x01, 0xff, 0xa0, 0x80, 0x05, 0x00, 0, 0, 0, 0] := by
+  rfl
+
+/-- decoder combinators matching the encoder combinators -/
+def seqD (d1 : Cons → Prog (β × Cons)) (d2 : Cons → Prog (γ × Cons)) : Cons → Prog ((β × γ) × Cons) :=
+  fun c => do let (a, c1) ← d1 c; let (b, c2) ← d2 c1; pure ((a, b), c2)
+def nilD : Cons → Prog (Unit × Cons) := fun c => pure ((), c)
+def primD (t : Tag) (p : Prog α) : Cons → Prog (α × Cons) :=
+  fun c => takePrimitiveIf c t (fun md => do let a ← p; pure (a, md))
+def consD (t : Tag) (d : Cons → Prog (β × Cons)) : Cons → Prog (β × Cons) := fun c => takeConstructedIf c t d
+def optConsD (t : Tag) (d : Cons → Prog (β × Cons)) : Cons → Prog (Option β × Cons) :=
+  fun c => takeOptConstructedIf c t d
+
+/-- the matching decoder, built from the reading combinators -/
+def sampleDec (m : Mode) : Cons → Prog ((Int × Bool × Option (Unit × Unit) × Unit) × Cons) :=
+  consD (C12.tagOf 0 16)
+    (seqD (primD (C12.tagOf 0 2) (toInt .i16))
+      (seqD (primD (C12.tagOf 0 1) (toBool m))
+        (seqD (optConsD (C12.tagOf 2 0) (seqD (primD (C12.tagOf 0 5) toNull) nilD)) nilD)))
+
+theorem sample_codec (m : Mode) : Codec m sample (sampleDec m) (300, true, some ((), ()), ()) := by
+  have t1 : TagOK 0 16 := ⟨by omega, by omega, by omega⟩
+  have t2 : TagOK 0 2 := ⟨by omega, by omega, by omega⟩
+  have t3 : TagOK 0 1 := ⟨by omega, by omega, by omega⟩
+  have t4 : TagOK 2 0 := ⟨by omega, by omega, by omega⟩
+  have t5 : TagOK 0 5 := ⟨by omega, by omega, by omega⟩
+  have c5 : Codec m (.seq .tuple [.prim (C12.tagOf 0 5) .null]) (seqD (primD (C12.tagOf 0 5) toNull) nilD) ((), ()) :=
+    Codec.seqCons .tuple _ [] _ _ () () (Codec.prim 0 5 t5 .null rfl toNull () leaf_null) (Codec.seqNil .tuple)
+  have c4 : Codec m (.optSome (.cons (C12.tagOf 2 0) (.seq .tuple [.prim (C12.tagOf 0 5) .null])))
+      (optConsD (C12.tagOf 2 0) (seqD (primD (C12.tagOf 0 5) toNull) nilD)) (some ((), ())) :=
+    Codec.optCons 2 0 t4 _ rfl _ _ c5
+  have c3 := Codec.seqCons .tuple _ [] _ _ _ _ c4 (Codec.seqNil (m := m) .tuple)
+  have c2 := Codec.seqCons .tuple _ _ _ _ _ _
+    (Codec.prim 0 1 t3 (.bool true) rfl (toBool m) true (leaf_bool m true)) c3
+  have c1 := Codec.seqCons .tuple _ _ _ _ _ _
+    (Codec.prim 0 2 t2 (.int .i16 300) rfl (toInt .i16) 300 (leaf_int .i16 300 rfl)) c2
+  exact Codec.cons 0 16 t1 _ rfl _ _ c1
+
+/-- the sample value round-trips in every mode, at top level, by the general theorem -/
+theorem sample_roundtrip (m : Mode) (bytes : Bytes) (hw : sample.write m = .ok bytes) :
+    runG0 (decodeTop m (sampleDec m)) (St bytes none) = .ok ((300, true, some ((), ()), ()), St [] none) :=
+  top_roundtrip m sample (sampleDec m) _ (sample_codec m) bytes hw
 
 end Bcder.Props.C04
